@@ -48,6 +48,11 @@ var freshReturning = map[string]int{
 	"encoding/gob.NewEncoder":                          shallow,
 	"encoding/csv.NewReader":                           shallow,
 	"log.New":                                          shallow,
+	// the slice is newly allocated (grown from nil); its elements are copies of what the sequence yields
+	"slices.Collect":          shallow,
+	"slices.Sorted":           shallow,
+	"slices.SortedFunc":       shallow,
+	"slices.SortedStableFunc": shallow,
 }
 
 // roaring.Bitmap methods that modify the receiver (Appendix A.1)
